@@ -319,11 +319,55 @@ pub fn replay(case: &Value) -> Vec<Violation> {
         let path = PathBuf::from(p.as_str().unwrap_or(""));
         return corpus_batch(&[path]).0;
     }
+    if let Some(text) = case["text"].as_str() {
+        // an unparsable file with a multi-byte line, next to a valid one
+        let label = case["bad_line"].as_str().unwrap_or("");
+        let valid = ("src/valid.rs".to_string(), format!("{}#[derive(Serialize, Deserialize)]\npub struct Solid {{ pub a: i32 }}\n#[tauri::command]\npub fn solid(s: Solid) -> Solid {{ s }}\n", gen::PRELUDE));
+        let reference: BTreeMap<String, String> = run_lib_default(&Project { files: vec![valid.clone()], links: vec![] }, &Cfg::mode(false)).files.iter().map(|(k, v)| (k.clone(), strip_timestamp(v))).collect();
+        let r = run_lib_default(&Project { files: vec![valid, ("src/i18n.rs".into(), text.to_string())], links: vec![] }, &Cfg::mode(false));
+        if let LibStatus::Panic(m) = &r.status {
+            return vec![Violation::new("C15", "panic", format!("unparsable file with a multi-byte line ({}): {}", label, m), case.clone()).field("family", "unparsable-multibyte-line").field("file", label.split(':').next().unwrap_or("").to_string())];
+        }
+        let out: BTreeMap<String, String> = r.files.iter().map(|(k, v)| (k.clone(), strip_timestamp(v))).collect();
+        if syn::parse_file(text).is_err() && out != reference {
+            return vec![Violation::new("C15", "bad-file-not-isolated", format!("unparsable file ({}) changed the output of the valid file", label), case.clone()).field("family", "unparsable-multibyte-line").field("file", label.split(':').next().unwrap_or("").to_string())];
+        }
+        return vec![];
+    }
+    if let Some(n) = case["cycle"].as_u64() {
+        return cycle_case(n as usize, case["visualize"].as_bool().unwrap_or(false), case["mode"].as_str().unwrap_or("none")).into_iter().collect();
+    }
     let Ok(c) = serde_json::from_value::<Case>(case["case"].clone()) else { return vec![] };
     match eval_inproc(&c).0 {
         Some((zod, m)) => vec![mk(&c, "panic", format!("panicked ({} mode): {}", if zod { "zod" } else { "none" }, m))],
         None => vec![],
     }
+}
+
+/// a reference cycle of `n` serde types through the real binary (unbounded recursion would abort)
+pub fn cycle_case(n: usize, viz: bool, mode: &str) -> Option<Violation> {
+    let sb = Sandbox::new();
+    let mut src = String::from(gen::PRELUDE);
+    for i in 0..n {
+        let next = (i + 1) % n;
+        let field = ["Vec<C@>", "Option<C@>", "HashMap<String, C@>", "(i32, Vec<C@>)"][i % 4].replace('@', &next.to_string());
+        src.push_str(&format!("#[derive(Serialize, Deserialize)]\npub struct C{} {{ pub id: i32, pub next: {} }}\n", i, field));
+    }
+    src.push_str("#[tauri::command]\npub fn head() -> C0 { todo!() }\n");
+    Project::single(src).write_to(&sb.path("proj")).unwrap();
+    let mut args: Vec<String> = vec!["tauri-typegen".into(), "generate".into(), "-p".into(), "./proj".into(), "-o".into(), "./out".into(), "-v".into(), mode.to_string()];
+    if viz {
+        args.push("--visualize-deps".into());
+    }
+    let r = run::spawn(Spawn { program: run::cli_binary(), args, cwd: &sb.root, schedule_env: None, trace_file: None, strace: None, hash_seed: None, fsize_limit: None });
+    if !matches!(r.code, Some(0) | Some(1)) {
+        return Some(
+            Violation::new("C15", "panic-or-abort", format!("reference cycle of {} types, visualize={}, {} mode: {} {}", n, viz, mode, r.status_string(), r.stderr.lines().filter(|l| l.contains("panicked") || l.contains("overflow")).take(2).collect::<Vec<_>>().join(" | ")), json!({"cycle": n, "visualize": viz, "mode": mode}))
+                .field("family", "type-cycle")
+                .field("file", format!("cycle-{}{}", n, if viz { "+visualize" } else { "" })),
+        );
+    }
+    None
 }
 
 pub fn strings(max_len: usize) -> Vec<String> {
@@ -598,30 +642,7 @@ pub fn run(tier: Tier) -> CheckResult {
     let cyc: Vec<(usize, bool, &str)> = (1..=6usize).flat_map(|n| [(n, false, "none"), (n, true, "none"), (n, true, "zod")]).collect();
     let cyres: Vec<Option<Violation>> = cyc
         .par_iter()
-        .map(|(n, viz, mode)| {
-            let sb = Sandbox::new();
-            let mut src = String::from(gen::PRELUDE);
-            for i in 0..*n {
-                let next = (i + 1) % n;
-                let field = ["Vec<C@>", "Option<C@>", "HashMap<String, C@>", "(i32, Vec<C@>)"][i % 4].replace('@', &next.to_string());
-                src.push_str(&format!("#[derive(Serialize, Deserialize)]\npub struct C{} {{ pub id: i32, pub next: {} }}\n", i, field));
-            }
-            src.push_str("#[tauri::command]\npub fn head() -> C0 { todo!() }\n");
-            Project::single(src).write_to(&sb.path("proj")).unwrap();
-            let mut args: Vec<String> = vec!["tauri-typegen".into(), "generate".into(), "-p".into(), "./proj".into(), "-o".into(), "./out".into(), "-v".into(), mode.to_string()];
-            if *viz {
-                args.push("--visualize-deps".into());
-            }
-            let r = run::spawn(Spawn { program: run::cli_binary(), args, cwd: &sb.root, schedule_env: None, trace_file: None, strace: None, hash_seed: None, fsize_limit: None });
-            if !matches!(r.code, Some(0) | Some(1)) {
-                return Some(
-                    Violation::new("C15", "panic-or-abort", format!("reference cycle of {} types, visualize={}, {} mode: {} {}", n, viz, mode, r.status_string(), r.stderr.lines().filter(|l| l.contains("panicked") || l.contains("overflow")).take(2).collect::<Vec<_>>().join(" | ")), json!({"cycle": n, "visualize": viz, "mode": mode}))
-                        .field("family", "type-cycle")
-                        .field("file", format!("cycle-{}{}", n, if *viz { "+visualize" } else { "" })),
-                );
-            }
-            None
-        })
+        .map(|(n, viz, mode)| cycle_case(*n, *viz, mode))
         .collect();
     subprocess_runs += cyc.len() as u64;
     all_v.extend(cyres.into_iter().flatten());
